@@ -937,7 +937,7 @@ def grid_segments(m):
 def random_segments(rng, n):
     out = []
     for _ in range(n):
-        kind = rng.choice(["general", "parallel", "collinear", "degenerate", "half"])
+        kind = rng.choice(["general", "parallel", "collinear", "degenerate", "half", "tiny", "tiny"])
         R = 6
         a0 = (rng.randrange(-R, R + 1), rng.randrange(-R, R + 1))
         u = (rng.randrange(-R, R + 1), rng.randrange(-R, R + 1))
@@ -963,7 +963,8 @@ def random_segments(rng, n):
                 u = v = (0, 0)
         else:
             v = (rng.randrange(-R, R + 1), rng.randrange(-R, R + 1))
-        sc = F(1, 2) if kind == "half" else F(1)
+        # "tiny": the same lattice geometry at scale 2^-14 (still exact in floats): absolute thresholds on den ~ length^4 show up here
+        sc = F(1, 2) if kind == "half" else (F(1, 2 ** 14) if kind == "tiny" else F(1))
         seg = [a0[0], a0[1], a0[0] + u[0], a0[1] + u[1], b0[0], b0[1], b0[0] + v[0], b0[1] + v[1]]
         out.append(tuple(F(x) * sc for x in seg))
     return out
